@@ -15,12 +15,19 @@ HARNESS(h_siphash)
     for (unsigned i = 0; i < LEN + OFF; ++i) buf[i] = nondet_u8();
     const uint8_t* m = buf + OFF;                         // message alignment OFF mod 8
     uint64_t ref = verif_ref_siphash24(key, m, LEN);
+#ifndef WHICH
+#define WHICH 0
+#endif
+#if WHICH == 0 || WHICH == 1
     CHECK(tlx::siphash_plain(key, m, LEN) == ref, "siphash_plain == SipHash-2-4");
-#if defined(__SSE2__)
+#endif
+#if defined(__SSE2__) && (WHICH == 0 || WHICH == 2)
     CHECK(tlx::siphash_sse2(key, m, LEN) == ref, "siphash_sse2 == SipHash-2-4");
 #endif
+#if WHICH == 0 || WHICH == 3
     CHECK(tlx::siphash(key, m, LEN) == ref, "siphash(key, msg, size) == SipHash-2-4");
     static const uint8_t dk[16] = {0, 1, 2, 3, 4, 5, 6, 7, 8, 9, 10, 11, 12, 13, 14, 15};
     CHECK(tlx::siphash(m, (size_t)LEN) == verif_ref_siphash24(dk, m, LEN), "siphash(msg, size) uses the documented default key");
+#endif
     REACH("siphash compared");
 }
